@@ -146,7 +146,8 @@ def dumpPattern (s : Sys) : String :=
         else 0
       -- the property scan of the node fails when its seek hits a garbage root or a page that did not
       -- persist (point lookups in the runs still work)
-      let scanOk := tx.props.isEmpty || m.proot == 0 || scanSeekOk vol m.proot m.ptop (tx.props.headD 0)
+      let scanOk := tx.props.isEmpty || m.proot == 0 ||
+        (scanSeekOk vol m.proot m.ptop (tx.props.headD 0) && !scanHitsTorn vol m.proot (tx.props.headD 0))
       if nn == tx.nodes.length && ee == tx.edges.length && pl == tx.props.length && scanOk then '1'
       else if nn == 0 && ee == 0 && pl == 0 then '0' else 'p')
     let present := (s.txs.map (fun tx => count tx.nodes (fun x => m.exts.contains x))).foldl (· + ·) 0
